@@ -214,9 +214,9 @@ PROPERTIES.update({
     },
     "C29": {
         "level": "proof",
-        "verus": [("u16_autocommit", ["ensure_transaction_open", "ensure_transaction_closed", "commit_with", "empty_change", "get_heads", "isolate", "integrate", "get_scope", "hydrate"])],
+        "verus": [("u16_autocommit", ["ensure_transaction_open", "ensure_transaction_closed", "commit_with", "empty_change", "get_heads", "isolate", "integrate", "get_scope", "hydrate", "length", "length_at", "text", "text_at"])],
         "kani": [],
-        "not_under_contract": ["what a clock-scoped read returns (the op set under a clock: Automerge::*_for(obj, clock); first clause); the other ~40 ReadDoc methods of AutoCommit (each a one-line `self.doc.x_for(.., self.get_scope(h))`) and all of Transaction's", "Automerge::transaction_at / isolate_actor and TransactionInner (assumed: transaction_args(heads) computes deps = heads; "
+        "not_under_contract": ["what a clock-scoped read returns (the op set under a clock: Automerge::*_for(obj, clock); first clause); the other ~35 ReadDoc methods of AutoCommit (hydrate, length(_at), text(_at) are under contract; the rest are each a one-line `self.doc.x_for(.., self.get_scope(h))`) and all of Transaction's", "Automerge::transaction_at / isolate_actor and TransactionInner (assumed: transaction_args(heads) computes deps = heads; "
                                "insert_local_op's reset_top under scope)", "what integrate merges (third clause: the document after integrate equals the merge of the isolated changes)", "Transaction-level (non-AutoCommit) API"],
         "trusted": ["Automerge::transaction_args(heads) scopes the transaction to exactly `heads` (assumed contract; proved for its deps computation against the change graph accessors in U10)", "TransactionInner::commit returns the hash of the change it made, if any"],
         "assumptions": ["C29 is claimed for the AutoCommit-level bookkeeping of its second clause only: which heads an isolated transaction is scoped to and how the isolated view moves; the read semantics and the merge on integrate are not_under_contract"],
@@ -224,7 +224,7 @@ PROPERTIES.update({
                        "isolation heads (it is opened with transaction_args(isolation) and every method that could change the heads flushes it first); committing inside isolation moves the isolated view to exactly the change just "
                        "committed (so the isolated chain is linear and later transactions depend on it alone) and never leaves or enters isolation; get_heads reports the isolation heads while isolated; integrate ends isolation. "
                        "On the real AutoCommit::get_scope: the clock a read is scoped to is a function of (heads argument, isolation, open transaction) -- while isolated it is never 'unscoped' -- and "
-                       "ReadDoc::hydrate of AutoCommit reads through exactly that scope (D30).",
+                       "ReadDoc::hydrate, length, length_at, text, text_at of AutoCommit read through exactly that scope (D30 was hydrate).",
     },
     "C10": {
         "level": "proof",
